@@ -18,4 +18,7 @@ if os.path.isdir('fixtures'):
         p, dt = extract.extract_fixtures(cfg)
         os.remove(p)
         print('primed fixtures', cfg, round(dt, 1), 's')
+from sa import witness
+ok, res, tail = witness.run_witnesses('/repo')
+print('primed witness crate:', 'ok' if ok else 'FAILED', len(res), 'doc-tests')
 PY
